@@ -190,6 +190,9 @@ func c04Packet(c *fw.Ctx, i int) {
 				// a window into a larger buffer: capacity beyond len is not part of the destination
 				dst, spare = fw.Roomy(dst, size+16)
 			}
+			if l == 0 && mode == 1 {
+				dst = nil
+			}
 			fillDst(c.R, dst, mode)
 			before := append([]byte{}, dst...)
 			var n int
